@@ -8,6 +8,7 @@ import (
 	"time"
 
 	"github.com/pquerna/otp/totp"
+	"github.com/volatiletech/authboss/v3/verifclock"
 	"golang.org/x/crypto/bcrypt"
 )
 
@@ -46,34 +47,39 @@ func BcryptOK(hash, pw string) bool {
 	return bcrypt.CompareHashAndPassword([]byte(hash), []byte(pw)) == nil
 }
 
-// TOTPCodes returns the codes of secret for steps -2..+2 around the real clock.
-func TOTPCodes(secret string) map[string]bool {
-	out := map[string]bool{}
-	now := time.Now()
-	for d := -2; d <= 2; d++ {
-		if c, err := totp.GenerateCode(secret, now.Add(time.Duration(d)*30*time.Second)); err == nil {
-			out[c] = true
-		}
-	}
-	return out
-}
+// The TOTP dependency is rewritten by the build overlay to read the virtual clock, so codes are
+// generated for the virtual instant too (in the real-clock checks the virtual clock IS the real one).
 
-// TOTPNow is the current code of secret (real clock).
-func TOTPNow(secret string) string {
-	c, err := totp.GenerateCode(secret, time.Now())
+// TOTPAt is the code of secret `steps` 30-second periods away from the current instant.
+func TOTPAt(secret string, steps int) string {
+	c, err := totp.GenerateCode(secret, verifclock.Now().Add(time.Duration(steps)*30*time.Second))
 	if err != nil {
 		return "000000"
 	}
 	return c
 }
 
-// TOTPFar is a code of secret ≥10 steps away from now (invalid by construction unless it
-// collides with a near code, which the caller checks).
-func TOTPFar(secret string) string {
+// TOTPCodes returns the codes the library's documented tolerance accepts right now: the current
+// period and one period either side.
+func TOTPCodes(secret string) map[string]bool {
+	out := map[string]bool{}
+	for d := -1; d <= 1; d++ {
+		out[TOTPAt(secret, d)] = true
+	}
+	return out
+}
+
+// TOTPNow is the current code of secret.
+func TOTPNow(secret string) string { return TOTPAt(secret, 0) }
+
+// TOTPFar is a code of secret from another period (2..60 periods in the past or future) that is not
+// among the currently acceptable ones.
+func TOTPFar(secret string, r *rand.Rand) string {
 	near := TOTPCodes(secret)
-	for d := 20; d < 40; d++ {
-		c, err := totp.GenerateCode(secret, time.Now().Add(time.Duration(d)*30*time.Second))
-		if err == nil && !near[c] {
+	offs := []int{-2, 2, -3, 3, -10, 10, -29, 29, -31, 31, -60, 60}
+	start := r.Intn(len(offs))
+	for i := range offs {
+		if c := TOTPAt(secret, offs[(start+i)%len(offs)]); !near[c] {
 			return c
 		}
 	}
